@@ -433,18 +433,30 @@ Section Steps.
   Qed.
 
   (* tableCompactionBuilder's output tables, written by the model writer *)
-  Definition chunk_ok (ch : list entry) : Prop :=
-    ch <> [] /\ Forall stored ch /\ ssorted c ch /\ write_sizes_ok c p tp crc compress o (chunk_kvs ch) = true.
+  (* the filter condition of ONE written table: no filter policy configured (goleveldb's default), or the file the model
+     writer produces for these pairs satisfies the no-false-negative condition of property C16 (ReadPath.filter_okb, a
+     boolean the correspondence run evaluates) *)
+  Definition table_filter_ok (kvs : list (bytes * bytes)) : Prop :=
+    wo_filter o = None \/
+    forall n f, write_table c p tp crc compress o n kvs = Some f -> filter_part c tp crc decompress fname ufc verify f = true.
 
+  (* ... for every table the session could write *)
   Definition filter_safe : Prop :=
     wo_filter o = None \/
     forall n kvs f, write_table c p tp crc compress o n kvs = Some f -> filter_part c tp crc decompress fname ufc verify f = true.
 
-  Lemma write_chunk n ch : chunk_ok ch -> filter_safe ->
+  Lemma filter_safe_table kvs : filter_safe -> table_filter_ok kvs.
+  Proof. intros [H|H]; [left; exact H|right; intros n f; apply H]. Qed.
+
+  Definition chunk_ok (ch : list entry) : Prop :=
+    ch <> [] /\ Forall stored ch /\ ssorted c ch /\ write_sizes_ok c p tp crc compress o (chunk_kvs ch) = true /\
+    table_filter_ok (chunk_kvs ch).
+
+  Lemma write_chunk n ch : chunk_ok ch ->
     exists f, write_table c p tp crc compress o n (chunk_kvs ch) = Some f /\ okb f = true /\
               atab f = {| t_num := n; t_entries := ch |} /\ tf_num f = n.
   Proof.
-    intros (Hne & Hst & Hso & Hsz) Hfl. destruct (chunk_kvs_entries ch Hst) as [Eent Hk].
+    intros (Hne & Hst & Hso & Hsz & Hfl). destruct (chunk_kvs_entries ch Hst) as [Eent Hk].
     assert (Hkne : chunk_kvs ch <> []) by (destruct ch; [congruence|discriminate]).
     pose proof Hsz as Hsz0. unfold write_sizes_ok in Hsz0. apply andb_prop in Hsz0 as [_ Hb].
     destruct (table_bytes c p tp crc compress o (chunk_kvs ch)) as [data|] eqn:Eb; [|discriminate].
@@ -452,20 +464,20 @@ Section Steps.
     assert (Hsorted : Cursor.sorted icr (chunk_kvs ch)) by (apply ssorted_sorted; [exact Hk|rewrite Eent; exact Hso]).
     destruct (writer_output_ok c ok p pok tp tp_ok crc crc_bound compress decompress codec_ok compress_ne fname ufc verify o ri_pos
                 n (chunk_kvs ch) data Hsorted Hkne Hk Eb Hsz) as (Hokf & Hpf & _).
-    { destruct Hfl as [Hn|Hf]; [left; exact Hn|right; apply (Hf n (chunk_kvs ch)); exact Ewt]. }
+    { destruct Hfl as [Hn|Hf]; [left; exact Hn|right; apply (Hf n); exact Ewt]. }
     eexists. split; [exact Ewt|]. split; [exact Hokf|]. split; [|reflexivity].
     unfold abs_table. rewrite Hpf, Eent. reflexivity.
   Qed.
 
-  Lemma write_outputs_ok : forall nums chunks, length nums = length chunks -> Forall chunk_ok chunks -> filter_safe ->
+  Lemma write_outputs_ok : forall nums chunks, length nums = length chunks -> Forall chunk_ok chunks ->
     exists outs, write_outputs c p tp crc compress o nums chunks = Some outs /\
       Forall (fun f => okb f = true) outs /\ map atab outs = mk_outputs nums chunks /\ map tf_num outs = nums.
   Proof.
-    induction nums as [|n nums IH]; intros [|ch chunks] Hl Hc Hfl; cbn [length] in Hl; try lia.
+    induction nums as [|n nums IH]; intros [|ch chunks] Hl Hc; cbn [length] in Hl; try lia.
     - exists []. repeat split; constructor.
     - inversion Hc as [|? ? Hch Hc']; subst.
-      destruct (write_chunk n ch Hch Hfl) as (f & Ef & Hok & Et & En).
-      destruct (IH chunks ltac:(lia) Hc' Hfl) as (outs & Eo & Ho & Mo & No).
+      destruct (write_chunk n ch Hch) as (f & Ef & Hok & Et & En).
+      destruct (IH chunks ltac:(lia) Hc') as (outs & Eo & Ho & Mo & No).
       exists (f :: outs). cbn [write_outputs]. rewrite Ef, Eo. split; [reflexivity|].
       split; [constructor; assumption|]. split; [cbn [map mk_outputs]; rewrite Et, Mo; reflexivity|cbn [map]; rewrite En, No; reflexivity].
   Qed.
@@ -674,14 +686,13 @@ Section Steps.
   Theorem compact_step st lvl seed os nums minSeq :
     bfull st -> seed_tables (av st) lvl seed <> [] -> minSeq < keyMaxSeq p ->
     NoDup nums -> (forall n f, In n nums -> In f (files_of st) -> tf_num f <> n) ->
-    filter_safe ->
     exists cm, b_pick c tp crc decompress fname ufc verify o st lvl seed = POk cm /\
       forall s',
         let deeper := skipn (lvl + 2) (av st) in
         transact c p (fsz st) (c_gp cm) (wo_gpOverlaps o lvl) deeper minSeq (wo_strict o) (wo_tableSize o (S lvl)) blen os
                  (map IGood (merge_inputs c (c_t0 cm ++ c_t1 cm))) (bst0 deeper) = (s', TDone) ->
         length nums = length (fin s') ->
-        Forall (fun ch => write_sizes_ok c p tp crc compress o (chunk_kvs ch) = true) (fin s') ->
+        Forall (fun ch => write_sizes_ok c p tp crc compress o (chunk_kvs ch) = true /\ table_filter_ok (chunk_kvs ch)) (fin s') ->
         exists st', b_compact c p tp crc compress decompress fname ufc verify o lvl seed os nums minSeq st = Some st' /\ bfull st' /\
           bs_mem st' = bs_mem st /\ bs_frozen st' = bs_frozen st /\
           outputs_of c p cm minSeq deeper (fin s') /\
@@ -690,7 +701,7 @@ Section Steps.
           (forall k s, minSeq <= s ->
              History.res p (newest c k s (all_entries (absS st')) None) = History.res p (newest c k s (all_entries (absS st)) None)).
   Proof.
-    intros B Hne Hms Hnd Hfresh Hfl. pose proof B as [W Wl U].
+    intros B Hne Hms Hnd Hfresh. pose proof B as [W Wl U].
     pose proof (seed_tables_ok st lvl seed Wl Hne) as Sd. pose proof Sd as (S1 & S2 & S3).
     set (sd := seed_tables (av st) lvl seed) in *.
     destruct (model_pick c ok p (fsz st) (av st) Wl lvl (wo_expandLimit o lvl) sd S1 S2 S3) as (cm & Ecm & Pk).
@@ -717,7 +728,7 @@ Section Steps.
       apply Forall_forall. intros e He. destruct (Hinp e) as (j & Hj).
       - apply HkI. apply in_concat. exists ch. split; assumption.
       - apply (level_entries_stored st j e W Hj). }
-    destruct (write_outputs_ok nums chunks Hlen Hchunks Hfl) as (outs & Eo & Hoko & Mo & No).
+    destruct (write_outputs_ok nums chunks Hlen Hchunks) as (outs & Eo & Hoko & Mo & No).
     (* the L1 compaction step *)
     destruct (model_compaction_step c ok p pok (fsz st) (av st) Wl lvl sd S2 cm Pk minSeq deeper chunks nums Cuts Kept Hlen Hnd)
       as (nv & Ef & Wnv).
